@@ -142,5 +142,496 @@ theorem mem_eraseWo_iff {l : List WoNode} {id : Nat} {n : WoNode} (h : findWo l 
     · subst e; exact absurd hid hne
     · exact hm'
 
+/-! ### the ownership invariant -/
+
+/-- Ownership between entry infos and list nodes.  A node of `prob` (`wo`) is owned by
+exactly one info, which points back at it; an info that points at a node points at a live
+node (one that is in the list); node ids are pairwise distinct; an info is admitted iff it
+owns an access-order node, and owns a write-order node only if admitted; ids at or above
+`nextId` are unused. -/
+structure NodesCore (s : SState) : Prop where
+  probIds : (s.prob.map (·.id)).Nodup
+  woIds : (s.wo.map (·.id)).Nodup
+  freshP : ∀ n ∈ s.prob, n.id < s.nextId
+  freshW : ∀ n ∈ s.wo, n.id < s.nextId
+  probOwn : ∀ n ∈ s.prob, (getInfo s n.info).ao = some n.id
+  aoNode : ∀ i id, (getInfo s i).ao = some id → ∃ n ∈ s.prob, n.id = id ∧ n.info = i
+  admIff : ∀ i, (getInfo s i).admitted = true ↔ (getInfo s i).ao.isSome = true
+  woOwn : ∀ n ∈ s.wo, (getInfo s n.info).wo = some n.id
+  woNode : ∀ i id, (getInfo s i).wo = some id → ∃ n ∈ s.wo, n.id = id ∧ n.info = i
+  woAdm : ∀ i, (getInfo s i).wo.isSome = true → (getInfo s i).admitted = true
+  infoFresh : ∀ i, s.nextId ≤ i → (getInfo s i).admitted = false
+
+/-- The invariant inside a maintenance run: the local entry counter is the length of the
+access-order list. -/
+structure NodesInv (s : SState) : Prop extends NodesCore s where
+  count : s.cec = s.prob.length
+
+/-- The invariant between operations: the published entry counter is the length of the
+access-order list. -/
+structure NodesInvTop (s : SState) : Prop extends NodesCore s where
+  count : s.ec = s.prob.length
+
+namespace NodesCore
+
+variable {s s' : SState}
+
+theorem notAdm_ao (h : NodesCore s) {i : Nat} (hna : (getInfo s i).admitted = false) :
+    (getInfo s i).ao = none := by
+  have := h.admIff i
+  cases hx : (getInfo s i).ao with
+  | none => rfl
+  | some id => rw [hx, hna] at this; simp at this
+
+theorem notAdm_wo (h : NodesCore s) {i : Nat} (hna : (getInfo s i).admitted = false) :
+    (getInfo s i).wo = none := by
+  have := h.woAdm i
+  cases hx : (getInfo s i).wo with
+  | none => rfl
+  | some id => rw [hx, hna] at this; simp at this
+
+theorem adm_ao (h : NodesCore s) {i : Nat} (ha : (getInfo s i).admitted = true) :
+    ∃ id, (getInfo s i).ao = some id := by
+  have := (h.admIff i).mp ha
+  cases hx : (getInfo s i).ao with
+  | none => rw [hx] at this; simp at this
+  | some id => exact ⟨id, rfl⟩
+
+theorem probAdm (h : NodesCore s) {n : AoNode} (hn : n ∈ s.prob) :
+    (getInfo s n.info).admitted = true := by
+  rw [h.admIff, h.probOwn n hn]; rfl
+
+/-- Nodes of the access-order list with distinct ids belong to distinct infos. -/
+theorem info_inj (h : NodesCore s) {n m : AoNode} (hn : n ∈ s.prob) (hm : m ∈ s.prob)
+    (e : n.info = m.info) : n.id = m.id := by
+  have h1 := h.probOwn n hn
+  have h2 := h.probOwn m hm
+  rw [e, h2] at h1
+  exact (Option.some.inj h1).symm
+
+/-- The state changed only in ways the invariant does not see: the node lists were permuted,
+the ownership fields of all infos are unchanged, ids were only consumed. -/
+theorem congr (h : NodesCore s)
+    (hao : ∀ j, (getInfo s' j).ao = (getInfo s j).ao)
+    (hwo : ∀ j, (getInfo s' j).wo = (getInfo s j).wo)
+    (had : ∀ j, (getInfo s' j).admitted = (getInfo s j).admitted)
+    (hp : s'.prob.Perm s.prob) (hw : s'.wo.Perm s.wo) (hn : s.nextId ≤ s'.nextId) :
+    NodesCore s' where
+  probIds := (hp.map _).nodup_iff.mpr h.probIds
+  woIds := (hw.map _).nodup_iff.mpr h.woIds
+  freshP := fun n hm => Nat.lt_of_lt_of_le (h.freshP n (hp.mem_iff.mp hm)) hn
+  freshW := fun n hm => Nat.lt_of_lt_of_le (h.freshW n (hw.mem_iff.mp hm)) hn
+  probOwn := fun n hm => by rw [hao]; exact h.probOwn n (hp.mem_iff.mp hm)
+  aoNode := fun i id hx => by
+    rw [hao] at hx
+    obtain ⟨n, hm, e1, e2⟩ := h.aoNode i id hx
+    exact ⟨n, hp.mem_iff.mpr hm, e1, e2⟩
+  admIff := fun i => by rw [had, hao]; exact h.admIff i
+  woOwn := fun n hm => by rw [hwo]; exact h.woOwn n (hw.mem_iff.mp hm)
+  woNode := fun i id hx => by
+    rw [hwo] at hx
+    obtain ⟨n, hm, e1, e2⟩ := h.woNode i id hx
+    exact ⟨n, hw.mem_iff.mpr hm, e1, e2⟩
+  woAdm := fun i => by rw [had, hwo]; exact h.woAdm i
+  infoFresh := fun i hi => by rw [had]; exact h.infoFresh i (Nat.le_trans hn hi)
+
+/-- Info `i` gave up its nodes, which were freed. -/
+theorem detach (h : NodesCore s) (i : Nat)
+    (hao : ∀ j, j ≠ i → (getInfo s' j).ao = (getInfo s j).ao)
+    (hwo : ∀ j, j ≠ i → (getInfo s' j).wo = (getInfo s j).wo)
+    (had : ∀ j, j ≠ i → (getInfo s' j).admitted = (getInfo s j).admitted)
+    (hiao : (getInfo s' i).ao = none) (hiwo : (getInfo s' i).wo = none)
+    (hiad : (getInfo s' i).admitted = false)
+    (hp : ∀ m, m ∈ s'.prob ↔ m ∈ s.prob ∧ m.info ≠ i)
+    (hw : ∀ m, m ∈ s'.wo ↔ m ∈ s.wo ∧ m.info ≠ i)
+    (hpn : (s'.prob.map (·.id)).Nodup) (hwn : (s'.wo.map (·.id)).Nodup)
+    (hn : s.nextId ≤ s'.nextId) : NodesCore s' where
+  probIds := hpn
+  woIds := hwn
+  freshP := fun n hm => Nat.lt_of_lt_of_le (h.freshP n ((hp n).mp hm).1) hn
+  freshW := fun n hm => Nat.lt_of_lt_of_le (h.freshW n ((hw n).mp hm).1) hn
+  probOwn := fun n hm => by
+    obtain ⟨h1, h2⟩ := (hp n).mp hm
+    rw [hao _ h2]; exact h.probOwn n h1
+  aoNode := fun j id hx => by
+    by_cases e : j = i
+    · subst e; rw [hiao] at hx; cases hx
+    · rw [hao j e] at hx
+      obtain ⟨n, hm, e1, e2⟩ := h.aoNode j id hx
+      exact ⟨n, (hp n).mpr ⟨hm, by rw [e2]; exact e⟩, e1, e2⟩
+  admIff := fun j => by
+    by_cases e : j = i
+    · subst e; rw [hiao, hiad]; simp
+    · rw [had j e, hao j e]; exact h.admIff j
+  woOwn := fun n hm => by
+    obtain ⟨h1, h2⟩ := (hw n).mp hm
+    rw [hwo _ h2]; exact h.woOwn n h1
+  woNode := fun j id hx => by
+    by_cases e : j = i
+    · subst e; rw [hiwo] at hx; cases hx
+    · rw [hwo j e] at hx
+      obtain ⟨n, hm, e1, e2⟩ := h.woNode j id hx
+      exact ⟨n, (hw n).mpr ⟨hm, by rw [e2]; exact e⟩, e1, e2⟩
+  woAdm := fun j => by
+    by_cases e : j = i
+    · subst e; rw [hiwo]; simp
+    · rw [had j e, hwo j e]; exact h.woAdm j
+  infoFresh := fun j hj => by
+    by_cases e : j = i
+    · subst e; exact hiad
+    · rw [had j e]; exact h.infoFresh j (Nat.le_trans hn hj)
+
+/-- Info `i`, which owned nothing, was given fresh nodes at the back of the lists. -/
+theorem attach (h : NodesCore s) (i : Nat) (hlt : i < s.nextId)
+    (hna : (getInfo s i).admitted = false)
+    (hao : ∀ j, j ≠ i → (getInfo s' j).ao = (getInfo s j).ao)
+    (hwo : ∀ j, j ≠ i → (getInfo s' j).wo = (getInfo s j).wo)
+    (had : ∀ j, j ≠ i → (getInfo s' j).admitted = (getInfo s j).admitted)
+    (node : AoNode) (hnid : node.id = s.nextId) (hninfo : node.info = i)
+    (hp : s'.prob = s.prob ++ [node])
+    (hiao : (getInfo s' i).ao = some s.nextId) (hiad : (getInfo s' i).admitted = true)
+    (hw : (s'.wo = s.wo ∧ (getInfo s' i).wo = none ∧ s'.nextId = s.nextId + 1) ∨
+      (∃ wn : WoNode, wn.id = s.nextId + 1 ∧ wn.info = i ∧ s'.wo = s.wo ++ [wn] ∧
+        (getInfo s' i).wo = some (s.nextId + 1) ∧ s'.nextId = s.nextId + 2)) :
+    NodesCore s' := by
+  have hnoP : ∀ m ∈ s.prob, m.info ≠ i := fun m hm e => by
+    have := h.probAdm hm; rw [e, hna] at this; cases this
+  have hnoW : ∀ m ∈ s.wo, m.info ≠ i := fun m hm e => by
+    have := h.woAdm m.info (by rw [h.woOwn m hm]; rfl); rw [e, hna] at this; cases this
+  have hn : s.nextId + 1 ≤ s'.nextId := by
+    rcases hw with ⟨_, _, e⟩ | ⟨_, _, _, _, _, e⟩ <;> omega
+  have hpm : ∀ m, m ∈ s'.prob ↔ m ∈ s.prob ∨ m = node := by
+    intro m; rw [hp]; simp
+  have hwm : ∀ m ∈ s'.wo, m ∈ s.wo ∨ (m.id = s.nextId + 1 ∧ m.info = i ∧
+      (getInfo s' i).wo = some (s.nextId + 1) ∧ s'.nextId = s.nextId + 2) := by
+    intro m hm
+    rcases hw with ⟨e, _, _⟩ | ⟨wn, e1, e2, e3, e4, e5⟩
+    · rw [e] at hm; exact Or.inl hm
+    · rw [e3] at hm
+      rcases List.mem_append.mp hm with hm | hm
+      · exact Or.inl hm
+      · simp at hm; subst hm; exact Or.inr ⟨e1, e2, e4, e5⟩
+  refine ⟨?_, ?_, ?_, ?_, ?_, ?_, ?_, ?_, ?_, ?_, ?_⟩
+  · rw [hp, List.map_append]
+    refine List.nodup_append.mpr ⟨h.probIds, by simp, ?_⟩
+    intro a ha b hb
+    simp at hb; subst hb
+    obtain ⟨m, hm, rfl⟩ := List.mem_map.mp ha
+    rw [hnid]; exact Nat.ne_of_lt (h.freshP m hm)
+  · rcases hw with ⟨e, _, _⟩ | ⟨wn, e1, e2, e3, e4, e5⟩
+    · rw [e]; exact h.woIds
+    · rw [e3, List.map_append]
+      refine List.nodup_append.mpr ⟨h.woIds, by simp, ?_⟩
+      intro a ha b hb
+      simp at hb; subst hb
+      obtain ⟨m, hm, rfl⟩ := List.mem_map.mp ha
+      rw [e1]; exact Nat.ne_of_lt (Nat.lt_succ_of_lt (h.freshW m hm))
+  · intro m hm
+    rcases (hpm m).mp hm with hm | rfl
+    · exact Nat.lt_of_lt_of_le (h.freshP m hm) (by omega)
+    · omega
+  · intro m hm
+    rcases hwm m hm with hm | ⟨e1, _, _, e5⟩
+    · exact Nat.lt_of_lt_of_le (h.freshW m hm) (by omega)
+    · omega
+  · intro m hm
+    rcases (hpm m).mp hm with hm | rfl
+    · rw [hao _ (hnoP m hm)]; exact h.probOwn m hm
+    · rw [hninfo, hiao, hnid]
+  · intro j id hx
+    by_cases e : j = i
+    · subst e
+      rw [hiao] at hx
+      exact ⟨node, (hpm node).mpr (Or.inr rfl), by rw [hnid]; exact Option.some.inj hx, hninfo⟩
+    · rw [hao j e] at hx
+      obtain ⟨n, hm, e1, e2⟩ := h.aoNode j id hx
+      exact ⟨n, (hpm n).mpr (Or.inl hm), e1, e2⟩
+  · intro j
+    by_cases e : j = i
+    · subst e; rw [hiao, hiad]; simp
+    · rw [had j e, hao j e]; exact h.admIff j
+  · intro m hm
+    rcases hwm m hm with hm | ⟨e1, e2, e4, _⟩
+    · rw [hwo _ (hnoW m hm)]; exact h.woOwn m hm
+    · rw [e2, e4, e1]
+  · intro j id hx
+    by_cases e : j = i
+    · subst e
+      rcases hw with ⟨_, e4, _⟩ | ⟨wn, e1, e2, e3, e4, e5⟩
+      · rw [e4] at hx; cases hx
+      · rw [e4] at hx
+        refine ⟨wn, by rw [e3]; simp, by rw [e1]; exact Option.some.inj hx, e2⟩
+    · rw [hwo j e] at hx
+      obtain ⟨n, hm, e1, e2⟩ := h.woNode j id hx
+      refine ⟨n, ?_, e1, e2⟩
+      rcases hw with ⟨e3, _, _⟩ | ⟨wn, _, _, e3, _, _⟩
+      · rw [e3]; exact hm
+      · rw [e3]; exact List.mem_append_left _ hm
+  · intro j
+    by_cases e : j = i
+    · subst e; intro _; exact hiad
+    · rw [had j e, hwo j e]; exact h.woAdm j
+  · intro j hj
+    have e : j ≠ i := by omega
+    rw [had j e]; exact h.infoFresh j (by omega)
+
+end NodesCore
+
+/-- Invariant of a maintenance run, and no fault so far. -/
+structure Safe (s : SState) : Prop extends NodesInv s where
+  nofault : s.fault = none
+
+/-- Every node of the access-order list of `s` is still in that of `s'`. -/
+def Keeps (s s' : SState) : Prop := ∀ m, m ∈ s.prob → m ∈ s'.prob
+
+theorem Keeps.refl (s : SState) : Keeps s s := fun _ h => h
+theorem Keeps.trans {a b c : SState} (h1 : Keeps a b) (h2 : Keeps b c) : Keeps a c :=
+  fun m h => h2 m (h1 m h)
+
+theorem Safe.congr {s s' : SState} (h : Safe s)
+    (hao : ∀ j, (getInfo s' j).ao = (getInfo s j).ao)
+    (hwo : ∀ j, (getInfo s' j).wo = (getInfo s j).wo)
+    (had : ∀ j, (getInfo s' j).admitted = (getInfo s j).admitted)
+    (hp : s'.prob.Perm s.prob) (hw : s'.wo.Perm s.wo) (hn : s.nextId ≤ s'.nextId)
+    (hc : s'.cec = s.cec) (hf : s'.fault = s.fault) : Safe s' :=
+  ⟨⟨h.toNodesCore.congr hao hwo had hp hw hn, by rw [hc, hp.length_eq]; exact h.count⟩,
+   by rw [hf]; exact h.nofault⟩
+
+/-- Updates of fields of the state the invariant does not mention. -/
+theorem Safe.of_eq {s s' : SState} (h : Safe s) (hi : s'.infos = s.infos) (hp : s'.prob = s.prob)
+    (hw : s'.wo = s.wo) (hn : s.nextId ≤ s'.nextId) (hc : s'.cec = s.cec)
+    (hf : s'.fault = s.fault) : Safe s' := by
+  have hg : ∀ j, getInfo s' j = getInfo s j := fun j => by simp [getInfo, hi]
+  exact h.congr (fun j => by rw [hg]) (fun j => by rw [hg]) (fun j => by rw [hg])
+    (by rw [hp]) (by rw [hw]) hn hc hf
+
+/-- Updates of an info that leave its ownership fields alone. -/
+theorem Safe.withInfo {s : SState} (h : Safe s) (i : Nat) (f : Info → Info)
+    (hao : (f (getInfo s i)).ao = (getInfo s i).ao) (hwo : (f (getInfo s i)).wo = (getInfo s i).wo)
+    (had : (f (getInfo s i)).admitted = (getInfo s i).admitted) : Safe (withInfo s i f) := by
+  refine h.congr ?_ ?_ ?_ (List.Perm.refl _) (List.Perm.refl _) (Nat.le_refl _) rfl rfl <;>
+    intro j <;> rw [getInfo_withInfo] <;> by_cases e : i = j
+  · subst e; simp [hao]
+  · simp [e]
+  · subst e; simp [hwo]
+  · simp [e]
+  · subst e; simp [had]
+  · simp [e]
+
+/-! ### moving nodes -/
+
+theorem moveNodeToBackAo_eq {s : SState} {id : Nat} {n : AoNode} (h : findAo s.prob id = some n) :
+    moveNodeToBackAo s id = { s with prob := eraseAo s.prob id ++ [n] } := by
+  simp only [moveNodeToBackAo, h]
+
+theorem moveNodeToBackWo_eq {s : SState} {id : Nat} {n : WoNode} (h : findWo s.wo id = some n) :
+    moveNodeToBackWo s id = { s with wo := eraseWo s.wo id ++ [n] } := by
+  simp only [moveNodeToBackWo, h]
+
+theorem moveNodeToBackAo_safe {s : SState} (h : Safe s) {n : AoNode} (hn : n ∈ s.prob) :
+    Safe (moveNodeToBackAo s n.id) ∧ Keeps s (moveNodeToBackAo s n.id) := by
+  have hf := findAo_of_mem h.probIds hn
+  rw [moveNodeToBackAo_eq hf]
+  have hp := perm_moveToBackAo hf
+  exact ⟨h.congr (fun _ => rfl) (fun _ => rfl) (fun _ => rfl) hp (List.Perm.refl _)
+    (Nat.le_refl _) rfl rfl, fun m hm => hp.mem_iff.mpr hm⟩
+
+theorem moveNodeToBackWo_safe {s : SState} (h : Safe s) {n : WoNode} (hn : n ∈ s.wo) :
+    Safe (moveNodeToBackWo s n.id) ∧ Keeps s (moveNodeToBackWo s n.id) := by
+  have hf := findWo_of_mem h.woIds hn
+  rw [moveNodeToBackWo_eq hf]
+  have hp := perm_moveToBackWo hf
+  exact ⟨h.congr (fun _ => rfl) (fun _ => rfl) (fun _ => rfl) (List.Perm.refl _) hp
+    (Nat.le_refl _) rfl rfl, fun m hm => hm⟩
+
+theorem moveToBackAoE_safe {s : SState} (h : Safe s) (i : Nat) :
+    Safe (moveToBackAoE s i) ∧ Keeps s (moveToBackAoE s i) := by
+  unfold moveToBackAoE
+  split
+  · exact ⟨h, Keeps.refl s⟩
+  · rename_i id hx
+    obtain ⟨n, hn, e1, _⟩ := h.aoNode i id hx
+    rw [← e1]; exact moveNodeToBackAo_safe h hn
+
+theorem moveToBackWoE_safe {s : SState} (h : Safe s) (i : Nat) :
+    Safe (moveToBackWoE s i) ∧ Keeps s (moveToBackWoE s i) := by
+  unfold moveToBackWoE
+  split
+  · exact ⟨h, Keeps.refl s⟩
+  · rename_i id hx
+    obtain ⟨n, hn, e1, _⟩ := h.woNode i id hx
+    rw [← e1]; exact moveNodeToBackWo_safe h hn
+
+/-! ### unlinking and `handle_remove` -/
+
+theorem unlinkAo_eq {s : SState} {i id : Nat} {n : AoNode} (h1 : (getInfo s i).ao = some id)
+    (h2 : findAo s.prob id = some n) :
+    unlinkAo s i =
+      { withInfo s i (fun x => { x with ao := none }) with prob := eraseAo s.prob id } := by
+  simp only [unlinkAo, h1]
+  have : findAo (withInfo s i (fun x => { x with ao := none })).prob id = some n := h2
+  simp only [this]
+  rfl
+
+theorem unlinkWo_eq {s : SState} {i id : Nat} {n : WoNode} (h1 : (getInfo s i).wo = some id)
+    (h2 : findWo s.wo id = some n) :
+    unlinkWo s i =
+      { withInfo s i (fun x => { x with wo := none }) with wo := eraseWo s.wo id } := by
+  simp only [unlinkWo, h1]
+  have : findWo (withInfo s i (fun x => { x with wo := none })).wo id = some n := h2
+  simp only [this]
+  rfl
+
+theorem unlinkWo_none {s : SState} {i : Nat} (h1 : (getInfo s i).wo = none) : unlinkWo s i = s := by
+  simp only [unlinkWo, h1]
+
+theorem subCounters_eq {s : SState} {n w : Nat} (h : n ≤ s.cec) :
+    subCounters s n w = { s with cec := s.cec - n, cws := s.cws - w } := by
+  have : ¬ s.cec < n := by omega
+  simp only [subCounters, this, if_false]
+
+theorem getInfo_congr {s s' : SState} (h : s'.infos = s.infos) (j : Nat) :
+    getInfo s' j = getInfo s j := by simp [getInfo, h]
+
+/-- `handle_remove` on an admitted info: the explicit result when the info owns no
+write-order node. -/
+theorem handleRemove_safe {s : SState} (h : Safe s) (ve : VE) :
+    Safe (handleRemove s ve) ∧
+      (∀ m, m ∈ s.prob → m.info ≠ ve.info → m ∈ (handleRemove s ve).prob) := by
+  unfold handleRemove
+  dsimp only
+  by_cases hadm : (getInfo s ve.info).admitted = true
+  · rw [if_pos hadm]
+    obtain ⟨id, hao⟩ := h.adm_ao hadm
+    obtain ⟨n, hn, hnid, hninfo⟩ := h.aoNode _ _ hao
+    have hfind : findAo s.prob id = some n := by rw [← hnid]; exact findAo_of_mem h.probIds hn
+    have hlen : 1 ≤ s.prob.length := by
+      cases hp : s.prob with
+      | nil => rw [hp] at hn; cases hn
+      | cons a l => simp
+    -- step 1: admitted := false
+    generalize hs1 : withInfo s ve.info (fun i => { i with admitted := false }) = s1
+    have hg1 : ∀ j, getInfo s1 j =
+        if ve.info = j then { getInfo s ve.info with admitted := false } else getInfo s j := by
+      intro j; rw [← hs1, getInfo_withInfo]
+    have hp1 : s1.prob = s.prob := by rw [← hs1]; rfl
+    have hw1 : s1.wo = s.wo := by rw [← hs1]; rfl
+    have hc1 : s1.cec = s.cec := by rw [← hs1]; rfl
+    have hn1 : s1.nextId = s.nextId := by rw [← hs1]; rfl
+    have hf1 : s1.fault = s.fault := by rw [← hs1]; rfl
+    -- step 2: counters
+    rw [subCounters_eq (by rw [hc1, h.count]; exact hlen)]
+    generalize hs2 : ({ s1 with cec := s1.cec - 1, cws := s1.cws - (getInfo s ve.info).weight } :
+      SState) = s2
+    have hg2 : ∀ j, getInfo s2 j = getInfo s1 j := fun j => by rw [← hs2]; rfl
+    have hp2 : s2.prob = s.prob := by rw [← hs2]; exact hp1
+    have hw2 : s2.wo = s.wo := by rw [← hs2]; exact hw1
+    have hc2 : s2.cec = s.cec - 1 := by rw [← hs2]; simp only; rw [hc1]
+    have hn2 : s2.nextId = s.nextId := by rw [← hs2]; exact hn1
+    have hf2 : s2.fault = s.fault := by rw [← hs2]; exact hf1
+    -- step 3: unlink the access-order node
+    have hao2 : (getInfo s2 ve.info).ao = some id := by rw [hg2, hg1]; simpa using hao
+    rw [unlinkAo_eq hao2 (by rw [hp2]; exact hfind)]
+    generalize hs3 : ({ withInfo s2 ve.info (fun x => { x with ao := none }) with
+      prob := eraseAo s2.prob id } : SState) = s3
+    have hg3 : ∀ j, getInfo s3 j =
+        if ve.info = j then { getInfo s2 ve.info with ao := none } else getInfo s2 j := by
+      intro j; rw [← hs3]; exact getInfo_withInfo s2 ve.info (fun x => { x with ao := none }) j
+    have hp3 : s3.prob = eraseAo s.prob id := by rw [← hs3]; simp only; rw [hp2]
+    have hw3 : s3.wo = s.wo := by rw [← hs3]; exact hw2
+    have hc3 : s3.cec = s.cec - 1 := by rw [← hs3]; exact hc2
+    have hn3 : s3.nextId = s.nextId := by rw [← hs3]; exact hn2
+    have hf3 : s3.fault = s.fault := by rw [← hs3]; exact hf2
+    have hwo3 : (getInfo s3 ve.info).wo = (getInfo s ve.info).wo := by
+      rw [hg3, hg2, hg1]; simp
+    have hmemP : ∀ m, m ∈ eraseAo s.prob id ↔ m ∈ s.prob ∧ m.info ≠ ve.info := by
+      intro m
+      rw [mem_eraseAo_iff hfind h.probIds]
+      constructor
+      · rintro ⟨h1, h2⟩
+        refine ⟨h1, fun e => h2 ?_⟩
+        rw [← hnid]; exact h.info_inj h1 hn (e.trans hninfo.symm)
+      · rintro ⟨h1, h2⟩
+        refine ⟨h1, fun e => h2 ?_⟩
+        have e1 := findAo_of_mem h.probIds h1
+        rw [e, ← hnid, findAo_of_mem h.probIds hn] at e1
+        rw [← Option.some.inj e1]; exact hninfo
+    have hO3 : ∀ j, j ≠ ve.info → getInfo s3 j = getInfo s j := by
+      intro j hj
+      have : ¬ ve.info = j := fun e => hj e.symm
+      rw [hg3, if_neg this, hg2, hg1, if_neg this]
+    have hI3 : getInfo s3 ve.info = { getInfo s ve.info with admitted := false, ao := none } := by
+      rw [hg3, hg2, hg1]; simp
+    have hlen3 : s.cec - 1 = (eraseAo s.prob id).length := by
+      have := length_eraseAo hfind
+      rw [h.count]; omega
+    cases hwo : (getInfo s ve.info).wo with
+    | none =>
+      rw [unlinkWo_none (by rw [hwo3]; exact hwo)]
+      refine ⟨⟨⟨?_, by rw [hc3, hp3]; exact hlen3⟩, by rw [hf3]; exact h.nofault⟩, ?_⟩
+      · refine h.toNodesCore.detach ve.info (fun j hj => by rw [hO3 j hj])
+          (fun j hj => by rw [hO3 j hj]) (fun j hj => by rw [hO3 j hj])
+          (by rw [hI3]) (by rw [hI3]; exact hwo) (by rw [hI3])
+          (by rw [hp3]; exact hmemP) ?_ (by rw [hp3]; exact nodup_eraseAo hfind h.probIds)
+          (by rw [hw3]; exact h.woIds) (by rw [hn3]; exact Nat.le_refl _)
+        intro m
+        rw [hw3]
+        refine ⟨fun hm => ⟨hm, fun e => ?_⟩, fun hm => hm.1⟩
+        have := h.woOwn m hm
+        rw [e, hwo] at this; cases this
+      · intro m hm hne
+        rw [hp3]; exact (hmemP m).mpr ⟨hm, hne⟩
+    | some wid =>
+      obtain ⟨wn, hwn, hwnid, hwninfo⟩ := h.woNode _ _ hwo
+      have hfindW : findWo s.wo wid = some wn := by
+        rw [← hwnid]; exact findWo_of_mem h.woIds hwn
+      rw [unlinkWo_eq (by rw [hwo3]; exact hwo) (by rw [hw3]; exact hfindW)]
+      generalize hs4 : ({ withInfo s3 ve.info (fun x => { x with wo := none }) with
+        wo := eraseWo s3.wo wid } : SState) = s4
+      have hg4 : ∀ j, getInfo s4 j =
+          if ve.info = j then { getInfo s3 ve.info with wo := none } else getInfo s3 j := by
+        intro j; rw [← hs4]; exact getInfo_withInfo s3 ve.info (fun x => { x with wo := none }) j
+      have hp4 : s4.prob = eraseAo s.prob id := by rw [← hs4]; exact hp3
+      have hw4 : s4.wo = eraseWo s.wo wid := by rw [← hs4]; simp only; rw [hw3]
+      have hc4 : s4.cec = s.cec - 1 := by rw [← hs4]; exact hc3
+      have hn4 : s4.nextId = s.nextId := by rw [← hs4]; exact hn3
+      have hf4 : s4.fault = s.fault := by rw [← hs4]; exact hf3
+      have hO4 : ∀ j, j ≠ ve.info → getInfo s4 j = getInfo s j := by
+        intro j hj
+        have : ¬ ve.info = j := fun e => hj e.symm
+        rw [hg4, if_neg this, hO3 j hj]
+      have hI4 : getInfo s4 ve.info =
+          { getInfo s ve.info with admitted := false, ao := none, wo := none } := by
+        rw [hg4, hI3]; simp
+      refine ⟨⟨⟨?_, by rw [hc4, hp4]; exact hlen3⟩, by rw [hf4]; exact h.nofault⟩, ?_⟩
+      · refine h.toNodesCore.detach ve.info (fun j hj => by rw [hO4 j hj])
+          (fun j hj => by rw [hO4 j hj]) (fun j hj => by rw [hO4 j hj])
+          (by rw [hI4]) (by rw [hI4]) (by rw [hI4])
+          (by rw [hp4]; exact hmemP) ?_ (by rw [hp4]; exact nodup_eraseAo hfind h.probIds)
+          (by rw [hw4]; exact nodup_eraseWo hfindW h.woIds) (by rw [hn4]; exact Nat.le_refl _)
+        intro m
+        rw [hw4, mem_eraseWo_iff hfindW h.woIds]
+        constructor
+        · rintro ⟨h1, h2⟩
+          refine ⟨h1, fun e => h2 ?_⟩
+          have := h.woOwn m h1
+          rw [e, hwo] at this
+          exact (Option.some.inj this).symm
+        · rintro ⟨h1, h2⟩
+          refine ⟨h1, fun e => h2 ?_⟩
+          have e1 := findWo_of_mem h.woIds h1
+          rw [e, ← hwnid, findWo_of_mem h.woIds hwn] at e1
+          rw [← Option.some.inj e1]; exact hwninfo
+      · intro m hm hne
+        rw [hp4]; exact (hmemP m).mpr ⟨hm, hne⟩
+  · rw [if_neg hadm]
+    have hna : (getInfo s ve.info).admitted = false := by
+      cases hx : (getInfo s ve.info).admitted with
+      | false => rfl
+      | true => exact absurd hx hadm
+    refine ⟨h.withInfo _ _ ?_ ?_ rfl, fun m hm _ => hm⟩
+    · simp only; exact (h.notAdm_ao hna).symm
+    · simp only; exact (h.notAdm_wo hna).symm
+
 end Sync
 end MiniMoka
